@@ -30,8 +30,9 @@ TECHNIQUE = ("bounded exhaustive enumeration on the real code: (L1) all tiny sub
              "of the validity invariant over all valid parents x all answers of the numpy.random functions it calls; "
              "(L3) 13 GA classes x tiny problems x hyper-parameters x a finite list of pinned generator states, "
              "re-evaluating every returned decision")
-RULE = ("L1: one execution = (algorithm, problem = (n candidates, k, per-candidate score vector over a 3-value alphabet "
-        "incl. ties, separable or pair-interaction objective, objective weight, constraint kind), one answer of "
+RULE = ("L1: one execution = (algorithm, problem = (n<=5 candidates [thorough: also n=6,k<=3], k<=n, per-candidate score "
+        "vector over a 3-value alphabet incl. ties [2 values for the largest (n,k), see bounds], separable or "
+        "pair-interaction objective, objective weight +1/-1, constraint kind), one answer of "
         "rng.choice) run through minimize(); non-trivial = the returned set differs from the initial draw / k<n with "
         "non-constant scores. L2: one transition = (operator, problem, parent individual(s) as ordered tuples, answer "
         "vector of choice/randint/random/binomial); non-trivial = output differs from input. L3: one execution = "
@@ -142,9 +143,13 @@ def _l1_groups(tier):
     T = tier == "thorough"
     OK = ("sep", "sep-") + PAIRS
     g = []
-    for n in range(1, 6):
+    for n in range(1, 7 if T else 6):
         for k in range(1, n + 1):
             nalpha, oks, cns = 3, OK, CONS
+            if n == 6:                      # thorough only: 20 subsets / 9 neighbours at k=3, 2-value alphabet
+                if k > 3:
+                    continue
+                nalpha = 2
             if n == 4 and not T:
                 if k == 3:
                     nalpha = 2
@@ -824,7 +829,7 @@ def run_shard(spec, ctx):
     T = ctx.tier == "thorough"
     ctx.bounds.update({
         "L1": "n<=5 candidates, all k<=n, score vectors = alphabet^n (3 values; 2 values for n=4,k>=3 / n=5,k>=2 quick, "
-              "n=5,k>=4 thorough; n=5,k>=4 thorough only), objective in {separable, separable weight -1, 3 pair-interaction "
+              "n=5,k>=4 thorough; n=5,k>=4 thorough only; thorough adds n=6,k<=3 over 2 values), objective in {separable, separable weight -1, 3 pair-interaction "
               "tables}, constraints in {none, ineq, eq, both, all-infeasible}; every answer of the initial rng.choice call",
         "L1_exhaustive": True,
         "L2": f"set space n<={6 if T else 5} (memetic operators n<=5), k<=min(n,3) plus k==n (<=4); parents = all ordered "
